@@ -5,6 +5,19 @@ ROOT = os.path.dirname(os.path.dirname(os.path.abspath(__file__)))
 
 # id -> (technique, level text, level note, design ref)
 CLAIMED = {
+ "C04": ("exhaustiveness rule (every exported val.Format constant has a case in node.NewValue or val.Conv), typestate rule (DefaultValue() only after HasDefault() on the same receiver, by dominance), and a CFG cycle rule (every cycle through a re-issued list request passes IncrementRow)",
+         "Decides three necessary conditions of faithful export: no declared type lacks a reader case (known finding: instance-identifier), schema defaults are the only values reported that the node did not return, and list iteration advances on every turn so an entry cannot be visited twice. The writer side (value table, brackets) is decided under C15. Round-trip equality for a value, visiting order and exactly-once visiting of every node are statements about runtime data and are not decided.",
+         "Thin by nature: the property is mostly about values. The three rules are anchored on node.NewValue, val.Conv, editor.list, selectVisibleListItem and ListItem.Next.",
+         "DESIGN.md §2 C04"),
+ "C15": ("exhaustiveness of writeValue's Format dispatch over the discovered scalar value kinds (with a frozen literal-safe table), taint-style rule that text taken from a value reaches the stream only through writeString, guard-signature pairing of the bracket writes and of the begin/end callbacks, error-flow rules for Flush / InsertInto / writer steps, who-may-touch rule for JSONWtr.Out, and accessor rules for member names",
+         "Decides that every value kind that exists is rendered as JSON (explicit case or literal-safe), that no unescaped value text can reach the output, that '[' and ']' (and list/object open and close in the callbacks) are emitted under the same predicate, that stream errors surface through the final Flush and the API's return, and that member names are schema identifiers qualified by the OriginalModule rule. Bracket balance over every callback sequence, the copied string escaper's correctness and numeric text are not decided.",
+         "Literal-safe kinds (Bool, Int8…UInt64) are a frozen table; val kinds never constructed anywhere (BinaryList) are skipped with an info line.",
+         "DESIGN.md §2 C15"),
+ "C19": ("accessor-agreement rule between the XML writers (XmlName, XMLWtr2.new) and XmlNode.Find, data-flow rule that string leaf text is not transformed on input, loop-shape rule for interleaved list entries, writer dispatch rule, error-flow rule for both writers, and a return-shape rule for the single root",
+         "Decides that writer and reader name/match elements with the same two schema accessors (Ident, OriginalModule.Namespace), that string text is taken as written, that list entries may be interleaved, that identityref/decimal64/enum have their own rendering and everything else the String() default, that leaf errors are returned and that a fragment has one root. Escaping is the patched encoding/xml's job (trusted). Inverse-ness on any particular tree is not decided.",
+         "Anchored on nodeutil.XmlNode.{Find,Child,Field,leafText}, XmlName, XMLWtr2.{new,writeFieldElement}, XMLWtr.{getStringValue,writeLeafElement}, WriteXMLFrag.",
+         "DESIGN.md §2 C19"),
+
  "C16": ("installation and dominance rules for CheckWhen (unconditional in Browser.baseConstraints, verdict returned unchanged, container-post veto makes selekt return nil), extraction of the operator-literal → predicate table from the SSA of xpathImpl.resolveOperator and comparison with the mathematical table and with the operator set derived from the xpath lexer's AST, nil-guard dominance for unset operands, error-flow rule for expression syntax errors, return-shape rule for Where",
          "Decides that `when` is always evaluated before data is touched and that its verdict is what hides the node; that each of =, !=, <, <=, >, >= is dispatched to the right predicate on c = leaf.Compare(literal) with the right orientation and that exactly the lexer's operators are handled; that an unset operand compares false instead of crashing; that malformed expressions are reported; and that where hides only entries of the addressed list and never stops the iteration. With C17 (Compare is a correct total order) this covers the comparison semantics structurally; XPath path resolution, which rows are kept and notification delivery are not decided.",
          "The table extraction depends on resolveOperator dispatching through string comparisons on the operator field; another shape makes the check fail as undecided rather than pass.",
